@@ -6,6 +6,7 @@ request  `overs <fuel> <links>`        links = comma separated `-` (no link) or 
 request  `unders <fuel> <links>`       the `traceOutlines` descent for every frame in index order
 request  `oversc <fuel> <links>` / `undersc <fuel> <links>`   the repaired (checked) loops
 request  `clones <fuel> <start> <table>`   start = comma separated framer indices; table = `;` separated lists (`-` empty)
+request  `crash <exception class> <function>`   reply: the finding ids of `knownCrashSites` for that site, or `-`
 reply    `done` | `loop` (ResolveError) | `hang` (no result within the budget) | `count <n>` for clones
 -/
 namespace Ioflo.Drv.Worklist
@@ -24,6 +25,9 @@ def showOut : Option Out → String
 
 def step (_ : Unit) (line : String) : Unit × String :=
   match words line with
+  | ["crash", cls, fn] =>
+    let ids := crashFindings cls fn
+    ((), if ids.isEmpty then "-" else " ".intercalate ids)
   | [op, fuel, links] =>
     match fuel.toNat?, parseLinks links with
     | some fuel, some ls =>
